@@ -345,5 +345,5 @@ var c05x = &vh.Prop[c05xCase]{
 
 func init() { registrars = append(registrars, c05.Register, c05x.Register) }
 
-func TestC05(t *testing.T)         { c05.Check(t, vh.N(15000, 50000)) }
+func TestC05(t *testing.T)         { c05.Check(t, vh.N(15000, 30000)) }
 func TestC05Exported(t *testing.T) { c05x.Check(t, vh.N(5000, 100000)) }
